@@ -38,8 +38,8 @@ package main
 // ---- server timeouts (C03): finite and positive for every accepted configuration (0 means the default)
 //@ func createHTTPServer
 //@   props C03
-//@   requires cfg != nil && 0 <= cfg.Server.Timeouts.Read && cfg.Server.Timeouts.Read < 8589934592 && 0 <= cfg.Server.Timeouts.Write && cfg.Server.Timeouts.Write < 8589934592
-//@   requires 0 <= cfg.Server.Timeouts.Idle && cfg.Server.Timeouts.Idle < 8589934592
+//@   requires cfg != nil && 0 <= cfg.Server.Timeouts.Read && cfg.Server.Timeouts.Read <= 9223372036 && 0 <= cfg.Server.Timeouts.Write && cfg.Server.Timeouts.Write <= 9223372036
+//@   requires 0 <= cfg.Server.Timeouts.Idle && cfg.Server.Timeouts.Idle <= 9223372036
 //@   ensures timeouts_positive: result != nil && result.ReadTimeout > 0 && result.WriteTimeout > 0 && result.IdleTimeout > 0
 // server.timeouts.handler is documented as the end-to-end bound of a request ("ensures requests don't hang
 // indefinitely"): when configured, the handler the server runs must enforce it.
